@@ -6,11 +6,14 @@ import (
 	"bufio"
 	"fmt"
 	"os"
+	"runtime/debug"
 )
 
 var commands = map[string]func(in *bufio.Scanner, out *bufio.Writer) error{}
 
 func main() {
+	// unbounded recursion (reference cycles) must die quickly, not after filling 1 GB of stack
+	debug.SetMaxStack(48 << 20)
 	if len(os.Args) < 2 {
 		fmt.Fprintln(os.Stderr, "usage: verifh <command>")
 		os.Exit(2)
